@@ -194,6 +194,9 @@ var optTemplates = []string{
 	"max_over_time(%s[30s]) - %s", "%s", "sum by (a) (%s) + sum by (a) (%s)", "clamp_min(%s, 1) / %s",
 	"%s - on (b) group_right %s", "-%s + %s", "(%s) == (%s)", "%s > bool %s", "count(%s) + count(%s) + count(%s)",
 	"sum(%s) + sum(%s) / sum(%s)", "histogram_quantile(0.5, %s) + %s", "topk(2, %s) / %s",
+	// a selector that is both an operand of a propagating binary operator and the broader select
+	// of a merge: the two optimizers then work on one matcher slice
+	"sum(%s + %s) + sum(%s)", "(%s * %s) / sum(%s)", "count(%s - %s) + count(%s) + count(%s)", "sum(%s) + sum(%s + %s)",
 }
 
 func (g *Gen) alphaSelector(metric string) string {
@@ -230,6 +233,23 @@ func (g *Gen) optCase(i int) *Case {
 			s += " offset 30s"
 		}
 		args[k] = s
+	}
+	if g.chance(0.2) {
+		// a narrower twin of one operand (same matchers plus one), next to an operand of the other
+		// metric that carries a matcher: both selector-rewriting optimizers apply to one selector,
+		// whose matcher slice (two label matchers and the name: length 3, capacity 4) has room
+		t = g.pick("sum(%s + %s) + sum(%s)", "(%s * %s) / sum(%s)", "sum(%s) + sum(%s + %s)", "count(%s - %s) + count(%s)")
+		al := matcherAlphabet()
+		fa := []string{`a="x"`, `a=~"x|y"`, `a!=""`, `a!="y"`}
+		fb := []string{`b="y"`, `b=~"x|y"`, `b!=""`, `b!="x"`}
+		wide := "m{" + fa[g.r.Intn(len(fa))] + "," + fb[g.r.Intn(len(fb))] + "}"
+		narrow := wide[:len(wide)-1] + "," + al[g.r.Intn(len(al))] + "}"
+		other := "n{" + append(fa, fb...)[g.r.Intn(8)] + "}"
+		if strings.HasPrefix(t, "sum(%s) + sum(") {
+			args = []any{narrow, wide, other}
+		} else {
+			args = []any{wide, other, narrow}
+		}
 	}
 	c.Query = fmt.Sprintf(t, args...)
 	c.Start = 300000
@@ -494,6 +514,14 @@ func (g *Gen) lateCase(i int) *Case {
 	c.End = c.Start + (steps-1)*c.Step
 	g.step = c.Step
 	v := g.pick("m", "m", "n", `m{a!="x"}`, "abs(m)", "-m")
+	if g.chance(0.3) {
+		// a pinned (step-invariant, evaluated once and cached) vector next to a moving scalar: the
+		// cached vector must not be written by whoever consumes it
+		v = fmt.Sprintf("%s @ %d.000", g.pick("m", "n", `m{a!="x"}`), (c.Start+int64(g.r.Intn(12))*c.Step)/1000)
+		if g.chance(0.3) {
+			v += " offset " + durStr(g.pickI(5000, 30000))
+		}
+	}
 	sc := func() string {
 		return g.pick("time()", "time() / 2", "scalar(n)", "scalar(m)", "time() - 1.7e9", "scalar(n) + time()", "scalar(count(n))")
 	}
